@@ -19,6 +19,9 @@ FAMILY = family("C02", [
              tiers=("thorough",), check=False, simulate=10000, sim_depth=700),
     ModelCfg("c02-n4o3e2", consts(4, 3, 2, OPS), tiers=("thorough",), check=False, simulate=10000,
              sim_depth=700),
+    # both iteration orders of the scopes' task / child-scope sets (Python sets), model check only
+    ModelCfg("c02-n3o3e1-orders", consts(3, 3, 1, '{"tgopen", "close", "spawn", "yield", "wait", "raise"}', orders="{FALSE, TRUE}"),
+             tiers=("thorough",)),
 ])
 
 
